@@ -164,7 +164,8 @@ def run(chk, replay):
     chk.assumptions = [sched.NOTES.get(PROP, "")]
     common.lean_obligations(chk, "BdModel/Props/%s.lean" % PROP, {"Sched": sched.SCHED_TIE, "Agent": tie_names("Agent"), "Exec": tie_names("Exec"),
                              # the stop signal of a step is the loader's reading of `signalOnStop` (parseMiscs validates the name)
-                             "Load": ["h_load_parseMiscs"]}, extra_targets=["BdModel.Sched.Tables"])
+                             "Load": sched.LOAD_TIES_FOR_SCHED}, extra_targets=["BdModel.Sched.Tables"])
     sched.run_stream(chk, PROP, replay)
+    sched.yaml_stream(chk, PROP, replay)
     agent_stop_stream(chk)
     real_stop_stream(chk)
